@@ -346,6 +346,8 @@ MethodExprs(N) ==
 TextExprsT(S) ==
   {<<"cat", C(p[1]), C(p[2])>> : p \in Pairs(S)} \cup {<<"cat", C(c), <<"ks", 9>>>> : c \in S}
   \cup {<<"trim", C(c), 0, 1>> : c \in S} \cup {<<"trim", C(c), 1, 2>> : c \in S}
+  \* a slice with start > 0 and more text after stop (the cells alone are two characters long)
+  \cup {<<"trim", <<"cat", C(p[1]), C(p[2])>>, 1, 3>> : p \in Pairs(S)}
   \cup {<<"b", "coalesce", C(c), <<"ks", 7>>>> : c \in S}
 TextExprsZ(S) ==
   {<<"mapv", C(c)>> : c \in S} \cup {<<"in", C(c), <<0, 7>>>> : c \in S}
